@@ -41,7 +41,6 @@ ASSUME = ["host ABI is x86-64 System V and gcc implements it (gcc is the referen
           "(inline fn-pointer types in other positions are the subject of C06)"]
 
 OPTS = ("-O0", "-O2")
-BATCH = 16         # cases (signature x direction) per program
 SINGLES = 3        # mismatching cases per batch that are re-run alone to get a minimal witness (crashes / compile failures always are)
 NCELLS = 16
 
@@ -763,7 +762,8 @@ def run(tier, seed):
     C.build_rt()
     work = C.fresh_dir("C19")
     nsigs, cases = plan(tier, seed)
-    jobs = [(os.path.join(work, f"b{i // BATCH}"), cases[i:i + BATCH]) for i in range(0, len(cases), BATCH)]
+    batch = max(8, min(20, -(-len(cases) // C.NCPU)))   # one round of programs per core in the quick tier
+    jobs = [(os.path.join(work, f"b{i // batch}"), cases[i:i + batch]) for i in range(0, len(cases), batch)]
     results = C.pmap(run_job, jobs)
     viol, inconc, samples = [], [], []
     keys, keys_all = set(), set()
